@@ -36,15 +36,29 @@ func jsonAppendString(b []byte, s string) []byte {
 }
 
 func jsonAppendWireError(b []byte, e *connectWireError) []byte {
-	if len(e.Details) > 0 {
-		verifOutside("error details (outside the json model)")
-	}
 	code, _ := e.Code.MarshalText()
 	b = append(b, `{"code":`...)
 	b = jsonAppendString(b, string(code))
 	if e.Message != "" {
 		b = append(b, `,"message":`...)
 		b = jsonAppendString(b, e.Message)
+	}
+	if len(e.Details) > 0 {
+		b = append(b, `,"details":[`...)
+		for i, d := range e.Details {
+			if i > 0 {
+				b = append(b, ',')
+			}
+			if len(d.Debug) > 0 {
+				verifOutside("error detail with a debug rendering (outside the json model)")
+			}
+			b = append(b, `{"type":`...)
+			b = jsonAppendString(b, d.Type)
+			b = append(b, `,"value":`...)
+			b = jsonAppendString(b, d.Value)
+			b = append(b, '}')
+		}
+		b = append(b, ']')
 	}
 	return append(b, '}')
 }
@@ -192,6 +206,28 @@ func jsonParseWireError(c *jsonCursor, e *connectWireError) (inSubset bool, err 
 			return false, nil
 		}
 		e.Message = msg
+	}
+	if c.lit(`,"details":[`) {
+		for i := 0; ; i++ {
+			if i > 0 && !c.lit(",") {
+				break
+			}
+			if !c.lit(`{"type":`) {
+				return false, nil
+			}
+			typ, ok := c.str()
+			if !ok || !c.lit(`,"value":`) {
+				return false, nil
+			}
+			val, ok := c.str()
+			if !ok || !c.lit("}") {
+				return false, nil
+			}
+			e.Details = append(e.Details, connectWireDetail{Type: typ, Value: val})
+		}
+		if !c.lit("]") {
+			return false, nil
+		}
 	}
 	if !c.lit("}") {
 		return false, nil
